@@ -9,6 +9,9 @@ open GoluaVerif.Model
 theorem consumeBudget_zero (m : M) (h : m.budget = 0) : consumeBudget m = .ok m := by
   unfold consumeBudget; simp [h]
 
+theorem consumeBudgetN_zero (m : M) (n : Nat) (h : m.budget = 0) : consumeBudgetN m n = .ok m := by
+  unfold consumeBudgetN; simp [h]
+
 theorem byteAt_nat (s : Subject) (p : Nat) : byteAt s (p : Int) =
     match s[p]? with
     | some b => .ok b
